@@ -40,7 +40,7 @@ def g_items(draw, max_items=None):
     c["jfa"] = c["estimator"] == "jfa"
     if c["jfa"] and c["V"] is None:
         c["V"] = np.sqrt(p["variances"]).ravel()[:, None] * r.normal(0, 1, (p["C"] * p["F"], gen.integer(draw, 1, 2)))
-    c["em"] = gen.integer(draw, 1, 3)
+    c["em"] = gen.choice(draw, [1, 2, 3, 2, 5, 6])  # also enough iterations for anything done "every n-th iteration"
     c["pre_use"] = gen.choice(draw, ["none", "none", "enroll", "fit"])
     c["np_seed"] = gen.integer(draw, 0, 9999)
     c["dim_t"] = gen.integer(draw, 1, 3)
